@@ -31,15 +31,15 @@ def field_op(op, a, b, p):
         return (a * b) % p
     if op == "div":
         if b == 0:
-            raise Abort("division by zero")
+            raise Abort("invalid: division by zero")
         return (a * pow(b, -1, p)) % p
     if op == "idiv":
         if b == 0:
-            raise Abort("integer division by zero")
+            raise Abort("invalid: integer division by zero")
         return a // b
     if op == "mod":
         if b == 0:
-            raise Abort("remainder by zero")
+            raise Abort("invalid: remainder by zero")
         return a % b
     if op == "pow":
         return pow(a, b, p)
@@ -50,7 +50,7 @@ def field_op(op, a, b, p):
             k = p - k
             left = not left
         if k >= bits(p):
-            raise Abort("over-large shift")
+            raise Abort("invalid: over-large shift")
         if left:
             return ((a << k) & ((1 << bits(p)) - 1)) % p
         return a >> k
@@ -126,7 +126,7 @@ class Interp:
             if self.sigtype.get((v[1], v[2])) == "input":
                 self.store[k] = self.inputs(("signal", v[1])) % self.p
                 return self.store[k]
-            raise Abort("read of unassigned signal " + v[1])
+            raise Abort("invalid: read of unassigned signal " + v[1])
         if ty in ("component", "anoncomponent"):
             raise Abort("component value")
         if ty == "local":
@@ -267,7 +267,7 @@ class Interp:
                     v = self.eval(body[2])
                     self.trace.append(("assert", v != 0))
                     if v == 0:
-                        raise Abort("assertion failed")
+                        raise Abort("invalid: assertion failed")
                 elif kind == "log":
                     pass
             if nxt == "stop":
@@ -291,6 +291,12 @@ class Interp:
         self.when[vkey(var)] = self.counter
 
     def sig_assign(self, var, idx, val, op):
+        done = getattr(self, "sig_done", None)
+        if done is None:
+            done = self.sig_done = set()
+        if (var[1], var[2], idx) in done:
+            raise Abort("invalid: signal assigned twice")
+        done.add((var[1], var[2], idx))
         st = self.sigtype.get((var[1], var[2]))
         self.trace.append(("signal", st, var[1], idx, val, op))
 
